@@ -11,6 +11,7 @@ package main
 // sequences of requests (values produced by the operating system).
 
 import (
+	"os"
 	"fmt"
 	"go/token"
 	"go/types"
@@ -257,6 +258,55 @@ func c01Structure(c *Ctx, pr *PropertyRun) {
 		}
 	}
 	r.RequireRole("walk-callback-with-effects", "two-path-operation")
+	// a copy is a resource of its own: a link shares the stored bytes, so a
+	// later PUT to the source or to the copy (which rewrites in place) shows
+	// through at the other name
+	lk := NewRule("C01", "C01.no-links", "the file server never makes a hard or symbolic link: the result of COPY is independent of its source from then on (E7)")
+	pr.Rules = append(pr.Rules, lk)
+	// ... as long as stored files are rewritten in place: some call opens
+	// the addressed resource itself for writing (with replace-by-rename
+	// everywhere a shared inode would never be written to)
+	inPlace := ""
+	if san := p.Func(pkgWebdav, "(LocalFileSystem).localPath"); san != nil {
+		sz := &sanitiser{c: c, san: san, memo: map[string]bool{}}
+		for _, fn := range p.ModFns {
+			if !inLib(fn) || len(fn.Blocks) == 0 {
+				continue
+			}
+			eachCall(fn, func(site ssa.CallInstruction) {
+				n := fsPrimitiveName(p, site.Common())
+				if n != "os.Create" && n != "os.OpenFile" && n != "os.WriteFile" {
+					return
+				}
+				if n == "os.OpenFile" && len(site.Common().Args) >= 2 {
+					if fl, ok := constInt(site.Common().Args[1]); ok && fl&int64(os.O_WRONLY|os.O_RDWR) == 0 {
+						return
+					}
+				}
+				if ok, _ := sz.sanitised(site.Common().Args[0], site.Block(), fn, 0); ok {
+					inPlace = p.instrPos(site)
+				}
+			})
+		}
+	}
+	lk.Count("writes_in_place", map[bool]int{false: 0, true: 1}[inPlace != ""])
+	for _, fn := range p.ModFns {
+		if !inLib(fn) || len(fn.Blocks) == 0 {
+			continue
+		}
+		eachCall(fn, func(site ssa.CallInstruction) {
+			n := calleeName(site.Common())
+			if len(fsPathArgs(site.Common())) > 0 {
+				lk.Role("fs-call")
+				isLink := (n == "os.Link" || n == "os.Symlink" || n == "syscall.Link" || n == "syscall.Symlink") && inPlace != ""
+				lk.Ob(!isLink)
+				if isLink {
+					lk.Violation("link|"+fnKey(fn)+"|"+n, p.instrPos(site), fmt.Sprintf("%s calls %s: the new name shares its content with the old one, so replacing the content of one of the two resources later (PUT rewrites a file in place) changes what the other returns — the copy is not a resource of its own (in-place write at %s)", fnKey(fn), n, inPlace), nil)
+				}
+			}
+		})
+	}
+	lk.RequireRole("fs-call")
 }
 
 // ---------------------------------------------------------------------------
